@@ -6,10 +6,14 @@ import Uft.Model.Patch
    pl <defmod> <lib> <soname|~> <patchstr> <nsyms> <sym>… <npat> <bits over syms>…
         -> "n=<k> <name>:<module>:<+|->… | <verdicts: one of + - 0 per symbol> | mod=<0|1>"
    pf <ty> <minsize> <symsize> <start> <addr> <tramp> <codehex>     -> "rc=<int> <codehex>"
-   fixed <0|1>          selects the unpatch_func that `uf` and `flow` model from here on
-                        (0 = the code as it is, 1 = repaired: finding C14-unpatch-any-call; default 1)  -> "ok"
-   uf <ty> <addr> <loc|~> <codehex> [<start> <maplen> <textlo> <texthi> <tramp> <fentry> <mcount>
+   fixed <0|1> [<0|1>]  selects the unpatch code that `uf` and `flow` model from here on: first flag =
+                        unpatch_func (0 = the code as it is, 1 = repaired: finding C14-UNPATCH-ANY-CALL),
+                        second flag = unpatch_fentry_func (0 = as it is, 1 = repaired: finding
+                        C14-UNPATCH-ENDBR; when absent it keeps its value); default 1 1            -> "ok"
+   uf <ty> <addr> <size> <loc|~> <codehex> [<start> <maplen> <textlo> <texthi> <tramp> <fentry> <mcount>
         {P <name> <addr> <size>}…]                                   -> "rc=<int> <codehex>"
+        (<loc> = the only __mcount_loc entry; the bsearch over it is `findLoc`;
+         short form: start 0, the whole image is the code segment, no trampoline, no PLT symbols)
    flow <defmod> <patchstr> <minsize> <fentryaddr> <mcountaddr>
       | <lib> <ty> <start> <textaddr> <textsize> <setupfails> <npages> <initperms> <codehex>
           S <name> <addr> <size> <1 func|0 other|P plt> <bits over patterns> … L <loc> <bits over patterns> …
@@ -92,22 +96,31 @@ def parsePlt : List String → List Sym → Option (List Sym)
     | _, _, _ => none
   | _, _ => none
 
-def handleUf (fixed : Bool) : List String → String
-  | [ty, a, loc, code] =>
-    match parseTy ty, num a, parseHexBytes code with
-    | some ty, some a, some code =>
-      showRes (unpatchFunc ty code a (if loc = "~" then none else num loc))
-    | _, _, _ => "bad-op"
-  | ty :: a :: loc :: code :: st :: ml :: tlo :: thi :: tr :: fe :: mc :: plt =>
-    match parseTy ty, num a, parseHexBytes code, parsePlt plt [] with
-    | some ty, some a, some code, some plt =>
+/-- bsearch(sym, mcount_loc, 1, …, cmp_loc) over the single entry -/
+def ufLoc (a sz : Nat) (loc : String) : Option Nat :=
+  if loc = "~" then none else
+  match num loc with
+  | some l => findLoc [l] { name := "f", addr := a, size := sz, isFunc := true }
+  | none => none
+
+def handleUf (fixed : Bool × Bool) : List String → String
+  | [ty, a, sz, loc, code] =>
+    match parseTy ty, num a, num sz, parseHexBytes code with
+    | some ty, some a, some sz, some code =>
+      let cfg : Cfg := { ty := ty, minSize := 0, start := 0, tramp := 0, locs := [], fixed := fixed.1,
+                         skipEndbr := fixed.2, mapLen := code.length, textLo := 0, textHi := code.length }
+      showRes (unpatchFuncG cfg code a (ufLoc a sz loc))
+    | _, _, _, _ => "bad-op"
+  | ty :: a :: sz :: loc :: code :: st :: ml :: tlo :: thi :: tr :: fe :: mc :: plt =>
+    match parseTy ty, num a, parseHexBytes code, parsePlt plt [], num sz with
+    | some ty, some a, some code, some plt, some sz =>
       match num st, num ml, num tlo, num thi, num tr, num fe, num mc with
       | some st, some ml, some tlo, some thi, some tr, some fe, some mc =>
-        let cfg : Cfg := { ty := ty, minSize := 0, start := st, tramp := tr, locs := [], fixed := fixed,
-                           mapLen := ml, textLo := tlo, textHi := thi, symtab := plt, entryFuncs := [fe, mc] }
-        showRes (unpatchFuncG cfg code a (if loc = "~" then none else num loc))
+        let cfg : Cfg := { ty := ty, minSize := 0, start := st, tramp := tr, locs := [], fixed := fixed.1,
+                           skipEndbr := fixed.2, mapLen := ml, textLo := tlo, textHi := thi, symtab := plt, entryFuncs := [fe, mc] }
+        showRes (unpatchFuncG cfg code a (ufLoc a sz loc))
       | _, _, _, _, _, _, _ => "bad-op"
-    | _, _, _, _ => "bad-op"
+    | _, _, _, _, _ => "bad-op"
   | _ => "bad-op"
 
 def permOfChar : Char → Perm
@@ -141,14 +154,15 @@ structure ModIn where
   perms : String
   mt : List (String × String)
 
-def parseMod (fixed : Bool) (mcount : Nat) : List String → Option ModIn
+def parseMod (fixed : Bool × Bool) (mcount : Nat) : List String → Option ModIn
   | lib :: ty :: st :: ta :: ts :: sf :: np :: perms :: code :: recs =>
     match str lib, parseTy ty, num st, num ta, num ts, num np, parseHexBytes code,
           parseRecs recs [] [] [] with
     | some lib, some ty, some st, some ta, some ts, some np, some code, some (ss, ls, mt) =>
       some { m := { libname := lib, ty := ty, start := st, textAddr := ta, textSize := ts,
                     code := code, syms := ss, locs := ls, setupFails := sf == "1",
-                    mapLen := np * 4096, unpatchFixed := fixed, mcountAddr := mcount },
+                    mapLen := np * 4096, unpatchFixed := fixed.1, unpatchEndbr := fixed.2,
+                    mcountAddr := mcount },
              npages := np, perms := perms, mt := mt }
     | _, _, _, _, _, _, _, _ => none
   | _ => none
@@ -156,7 +170,7 @@ def parseMod (fixed : Bool) (mcount : Nat) : List String → Option ModIn
 def permsOf (pg : Pages) (start npages : Nat) : String :=
   String.ofList ((List.range (npages + 1)).map fun i => charOfPerm (pg (start / 4096 + i)))
 
-def handleFlow (fixed : Bool) (ws : List String) : String :=
+def handleFlow (fixed : Bool × Bool) (ws : List String) : String :=
   match splitBar ws with
   | [dm, ps, ms, fa, mc] :: mods =>
     match str dm, str ps, num ms, num fa, num mc >>= fun mc => mods.mapM (parseMod fixed mc) with
@@ -205,7 +219,7 @@ def handleDt : List String → String
     | _, _ => "bad-op"
   | _ => "bad-op"
 
-def handle (fixed : Bool) : List String → String
+def handle (fixed : Bool × Bool) : List String → String
   | "pl" :: r => handlePl r
   | "pf" :: r => handlePf r
   | "uf" :: r => handleUf fixed r
@@ -213,12 +227,13 @@ def handle (fixed : Bool) : List String → String
   | "dt" :: r => handleDt r
   | _ => "bad-op"
 
-/-- state: which unpatch_func is modelled (`fixed <0|1>` switches) -/
+/-- state: which unpatch_func / unpatch_fentry_func is modelled (`fixed <0|1> [<0|1>]` switches) -/
 def model : Model :=
-  { σ := Bool, init := true,
+  { σ := Bool × Bool, init := (true, true),
     step := fun fx ws =>
       match ws with
-      | ["fixed", b] => (b == "1", "ok")
+      | ["fixed", b] => ((b == "1", fx.2), "ok")
+      | ["fixed", b, e] => ((b == "1", e == "1"), "ok")
       | _ => (fx, handle fx ws) }
 
 end Driver.C14
